@@ -84,6 +84,21 @@ func judge(v *verdict, quickTier bool, o *e2e.Origin, log1, log2 []e2e.Exchange,
 		}
 	}
 
+	// a row leaves the queue only after its finish message: more rows gone than finish messages sent means a
+	// row that was not reported finished can never be crawled again
+	gone := 0
+	for _, p := range preloaded {
+		if _, present := at[p]; !present {
+			gone++
+		}
+	}
+	if _, present := at["/leaf"]; !present && len(served1["/leaf"]) > 0 {
+		gone++
+	}
+	if gone > v.Finishes1 {
+		add("row-gone-without-finish", fmt.Sprintf("%d rows that were in the queue are absent from lq.db at the instant the first run ended, but only %d finish messages had been sent: a URL that was not reported finished has left the queue and cannot be crawled again (rows at the instant: %v)", gone, v.Finishes1, statuses(v.AtInstant)))
+	}
+
 	// (c) every row still queued at the instant is crawled again by the second run
 	var paths []string
 	for p := range at {
